@@ -2,7 +2,7 @@
   C19 — TERMINATION of the derivative closure ("iter_derivatives(e) terminates …; compile(e) always
   succeeds"), the part left open by Props/C19.lean / C19Final.lean.
 
-  FULL STATEMENT (NOT proved in this generality):
+  FULL STATEMENT — PROVED (section 3, `closure_finite`):
       ∀ ord, PairSound ord → Function.Injective ord → ∀ e, e.WF → e.NZ →
         ∃ fuel l, iterDerivatives ord fuel e = .ok l
   i.e. Brzozowski's finiteness theorem for this implementation's normal form.
@@ -19,65 +19,62 @@
          `compile`, `is_empty_re`, `get_string` return (`.ok _`: neither out of fuel nor panic)
          with fuel `S.length + 1`.
 
-  2. FINITENESS, hence unconditional termination, for the fragment `Frag e` (`RE.frag e = true`, a
-     decidable syntactic predicate) and every INJECTIVE `ord` (`ids_injective`, C07, gives it for
-     every real manager; with a non-injective `ord` `Vec::dedup` leaves non-adjacent duplicates):
-       * `derivatives_finite_fragment`   `PairSound ord → Injective ord → Frag e →
-                                          ∃ S, e ∈ S ∧ DerivClosed ord S` (no well-formedness
-                                          hypothesis: `S` is closed under `computeDeriv · c` for EVERY `c`)
-       * `closure_finite_fragment`       `Frag e → … → ∃ fuel l, iterDerivatives ord fuel e = .ok l`
-       * `compile_succeeds_total_fragment`, `is_empty_total_fragment`, `get_string_total_fragment`
+  2. (historical, subsumed by 3) FINITENESS for the syntactic fragment `Frag e` by an explicit
+     description of the reachable terms (`derivatives_finite_fragment`, `closure_finite_fragment`, …;
+     Proofs/TerminationFrag.lean).  Kept because it yields a list closed under `computeDeriv`
+     (`Closed`), not only a bound, and because section 3 uses its lemmas `makeUnion_cases`,
+     `makeInter_cases` (with an injective `ord` the result of `make_union`/`make_inter` is `∅`, `ε`,
+     `Σ*`, an operand or a DUPLICATE-FREE list of operands).
+
+  3. FINITENESS AND TERMINATION FOR EVERY TERM and every INJECTIVE `ord` (`ids_injective`, C07,
+     gives injectivity for every real manager; with a non-injective `ord` `Vec::dedup` leaves
+     non-adjacent duplicates and unions can grow):
+       * `derivatives_finite`       `Injective ord → ∀ e, ∃ S, DerivBounded ord e S`
+       * `derivatives_in_universe`  the explicit list: all terms built over the sub-terms of `e`
+                                    whose size `Gen.sz` is at most the potential `Gen.pot e`
+       * `derivative_sizes_bounded`, `derivatives_never_overflow`   for ANY `ord`: sizes and loop
+                                    counters of all iterated derivatives are at most `pot e`
+       * `closure_finite`           `iter_derivatives(e)` terminates
+       * `compile_succeeds_total`, `compile_total_correct`   `compile(e)` returns an automaton that
+                                    accepts exactly the language of `e`
+       * `try_compile_total`        one fuel for every bound `n`; `Some` iff `n ≠ 0 ∧ |closure| ≤ n`
+       * `is_empty_total`           `is_empty_re(e)` returns the exact answer
+       * `get_string_total`         `get_string(e)` returns
+       * `start_char_total`         `start_char(e,c)` returns the exact answer
+     How the obstacle of the earlier attempt (`ReManager::concat` is not associative:
+     `concat(concat(R,R),A) = R^2·A` but `concat(R,concat(R,A)) = R·(R·A)`, and both bracketings
+     are reachable) is avoided: no description of the reachable terms is needed.  Two measures,
+         sz (a·b) = sz a + sz b + 1            pot (a·b) = max (pot a + sz b + 1) (pot b)
+         sz (x^ρ) = sz x · m(ρ) + 1            pot (x^ρ) = pot x + |mk_loop(x, ρ.shift)| + 1
+         sz (⋃ l) = max                        pot (⋃ l) = max        (m(ρ) = largest finite bound)
+     are INVARIANT under re-bracketing and NON-INCREASING under every merging arm
+     (R·R^ρ → R^(ρ+1), R^ρ·R → R^(ρ+1), R^ρ·R^σ → R^(ρ+σ), R·R → R², S·Σ* → Σ*, (x^σ)^ρ → x^(σ·ρ)),
+     so `pot (compute_derivative(t, c)) ≤ pot t` for ANY `ord` (`Gen.pot_deriv`) and `sz t ≤ pot t`
+     (`Gen.sz_le_pot`): the size of every iterated derivative — hence every loop counter, every
+     chain length and the nesting depth — is bounded by `pot e`.  The unions/intersections are
+     duplicate-free lists (injective `ord`), so only finitely many terms of bounded size exist over
+     the sub-terms of `e` (`Gen.Shape`, `Gen.shape_deriv`, `Gen.univ`, `Gen.mem_univ`).
+
+  Proofs: Proofs/Termination.lean (reduction), Proofs/TerminationFrag.lean (fragment, shape of
+  make_union/make_inter), Proofs/TerminationGen.lean (potential, universe, the full theorem).
+
+  The fragment of section 2, for reference:
      `Frag` = right-linear terms with Boolean structure:
-         L ::= [a-b] | ⋃ [[a-b],…]                       (a "letter": a character class given as one
-                                                          range or as a union of ranges, e.g. [a-zA-Z0-9_])
+         L ::= [a-b] | ⋃ [[a-b],…]                       (a "letter")
          K ::= L | L^[i,j] | L^[i,∞)                     (a "head")
          H ::= ∅ | ε | K
          Y ::= K₁ · (K₂ · (… · Kₙ))   n ≥ 2, K₁ not nullable   (a compound loop body: `ab`, `,[0-9]+`)
          G ::= ∅ | ε | [a-b] | L^[i,j] | L^[i,∞) | Y^[i,j] | Y^[i,∞) | H · G | Y^[i,j] · G' | Y^[i,∞) · G'
              | ⋃ [G,…] | ⋂ [G,…] | ¬G
-         G' = a `G` that is a concatenation `t · _` or a loop `(t · _)^[..]` whose first factor `t`
-              is not `∅`, `ε`, a letter of a head of `Y` or a loop over such a letter; or any other
-              `G` (a head, a union, an intersection, a complement) that is not `∅`, `ε`, `Σ*`, a
-              letter of a head of `Y` or a loop over such a letter
-     (string literals, sequences of character classes with bounded or unbounded repetition such as
-     `Σ* a Σ^[3,5] [0-9a-f]* (foo|bar)`, identifiers `[a-zA-Z_][a-zA-Z0-9_]*`, loops over words and
-     over sequences of classes at the right end of a concatenation such as `(ab)*`, `c (ab)^[2,5]`,
-     `[0-9]+ (,[0-9]+)*`, loops over words followed by a tail that starts with a different letter or
-     with another such loop such as `(ab)* c`, `(ab)+ c d`, `(ab)* (cd)* e`, `(ab)* (c|d)`, and every
-     union / intersection / complement of such terms, also nested to the right of a concatenation).
-     Covered rewrites: ALL of `simplify_set_operation`
-     (sort by id, dedup, neutral/absorbing element, complement pairs), `make_union` with
-     subsumption pruning, `make_inter` with the ε shortcut, `complement`, and every arm of `concat`
-     between a head `H` and a tail `G` (R·R^[i,j], R^[i,j]·R, R^[a,b]·R^[c,d], R·R, S·Σ*), `mk_loop`
-     on letters and on chains, the re-association `(R·S)·T → R·(S·T)` and the merges `Y·Y → Y^2`,
-     `Y·Y^[i,j] → Y^[i+1,j+1]` that the derivative of a loop over a chain `Y` produces.
-
-  OUTSIDE `Frag` (the obstacle):
-       * a concatenation whose LEFT operand is an intersection, a complement, a union that is not
-         a letter, or a concatenation (`(a|bc) d`, `(¬a) b`), or a loop over a chain `Y` whose tail is
-         not of the form `G'` above — a tail starting with a letter of `Y` (`(ab)* a c`, `(ab)* b*`)
-         or equal to `Σ*`;
-       * a loop whose body is neither a letter nor a chain `Y` as above: a body with a nullable
-         first factor (`(a*b)*`), a body containing a union / intersection / complement or another
-         compound loop (`(a|b*)^[2,3]`, `((ab)*c)*`).
-     For these the classical argument needs  d_c(X · T) = d_c(X) · T ∪ …  SYNTACTICALLY, i.e.
-     `mkConcat (mkConcat u v) T = mkConcat u (mkConcat v T)`.  `ReManager::concat` is NOT associative:
-     `concat(concat(R,R),A) = R^2·A` but `concat(R,concat(R,A)) = R·(R·A)` (the loop-merging arms
-     only look at the whole right operand), and `compute_derivative` of `X^[i,j]·T` builds the
-     left-nested `concat(concat(d X, X^[i-1,j-1]), T)`.  Both association variants of a chain are
-     reachable, so the finite universe must be closed under re-bracketing and under the merging
-     rewrites at every junction; this needs an abstraction of chains modulo merging (run-length
-     normal form with finite fibres) that is not formalised.  No counter-example was found: the real
-     implementation terminated on ~10^6 adversarially generated expressions (nested non-flattened
-     loops, complements/intersections under concatenation and loops); the largest closures are
-     exponential in a loop counter but finite.
-
-  Proofs: Proofs/Termination.lean (reduction), Proofs/TerminationFrag.lean (finiteness).
+         G' = a `G` whose first factor is not `∅`, `ε`, a letter of a head of `Y` or a loop over such
+              a letter, and that is not `Σ*`.
 -/
 import SmtModel.Proofs.TerminationFrag
+import SmtModel.Proofs.TerminationGen
 import SmtModel.Props.C19Final
 import SmtModel.Props.C05Final
 import SmtModel.Props.C02
+import SmtModel.Props.C18Final
 
 namespace Smt.C19.Term
 open Smt RE
@@ -250,5 +247,178 @@ example : ¬ Frag (.concat (.compl a) b) := by decide
 /-- the conclusion for a concrete case (with the constant id assignment the run can be evaluated) -/
 example : iterDerivatives (fun _ => 0) 10 (.concat a (.loop b ⟨0, none⟩)) =
     .ok [.concat a (.loop b ⟨0, none⟩), .loop b ⟨0, none⟩, .empty] := by decide +kernel
+
+/-! ### 3. THE FULL THEOREM: finiteness and termination for EVERY term of the domain
+
+  Proof (Proofs/TerminationGen.lean): a potential function `Gen.pot : RE → ℕ` that never increases
+  along `compute_derivative` (`Gen.pot_deriv`) and dominates a size `Gen.sz` (`Gen.sz_le_pot`); both
+  are sub-additive through every arm of `ReManager::concat` — they are invariant under
+  re-bracketing and non-increasing under every loop merge — (`Gen.mkConcat_bounds`), `mk_loop`
+  with its range multiplication, `complement`, `make_union`, `make_inter`.  Together with the shape
+  invariant `Gen.Shape` (built over the sub-terms of `e`; new n-ary nodes duplicate-free and flat:
+  this is where injectivity of `ord` enters) every iterated derivative lies in the explicit finite
+  list `Gen.univ (Gen.atoms e) (Gen.pot e)`. -/
+
+/-- **derivatives_finite**: for EVERY term and every injective id assignment the set of iterated
+    derivatives (w.r.t. arbitrary strings) is contained in one finite list — Brzozowski's theorem
+    for this normal form.  No well-formedness hypothesis is needed. -/
+theorem derivatives_finite (hinj : Function.Injective ord) (e : RE) : ∃ S, DerivBounded ord e S :=
+  ⟨_, Gen.derivBounded_all hinj e⟩
+
+/-- the explicit bound: the list of all terms over the sub-terms of `e` whose size is at most
+    the potential of `e` -/
+theorem derivatives_in_universe (hinj : Function.Injective ord) (e : RE) (s : List Nat) :
+    strDerivative ord e s ∈ Gen.univ (Gen.atoms e) (Gen.pot e) ∧
+      Gen.sz (strDerivative ord e s) ≤ Gen.pot e :=
+  ⟨Gen.mem_univ _ _ (Gen.strDerivative_inv hinj e s).1
+      (Nat.le_trans (Gen.sz_le_pot _) (Gen.strDerivative_inv hinj e s).2),
+    Nat.le_trans (Gen.sz_le_pot _) (Gen.strDerivative_inv hinj e s).2⟩
+
+/-- **derivative_sizes_bounded**: for EVERY id assignment (no hypothesis at all) the potential
+    never increases along a derivative and the size of every iterated derivative is at most
+    `pot e`; in particular every loop counter, every chain length and the nesting depth of every
+    iterated derivative is bounded by a number computed from `e` alone -/
+theorem derivative_sizes_bounded (ord : RE → Nat) (e : RE) (s : List Nat) :
+    Gen.pot (strDerivative ord e s) ≤ Gen.pot e ∧ Gen.sz (strDerivative ord e s) ≤ Gen.pot e :=
+  ⟨Gen.pot_strDerivative_le ord e s, Gen.sz_strDerivative_le ord e s⟩
+
+/-- **derivatives_never_overflow**: if the potential of `e` fits in a `u32`, no loop bound of any
+    iterated derivative exceeds `u32::MAX` (`RE.overflowed` = the documented `loop_ranges` panic),
+    for every id assignment -/
+theorem derivatives_never_overflow (ord : RE → Nat) {e : RE} (he : Gen.pot e ≤ U32_MAX)
+    (s : List Nat) : (strDerivative ord e s).overflowed = false :=
+  Gen.strDerivative_not_overflowed ord he s
+
+/-- **closure_finite**: `iter_derivatives(e)` terminates, for every term of the domain -/
+theorem closure_finite (hps : PairSound ord) (hinj : Function.Injective ord) {e : RE}
+    (he : e.WF) (hz : e.NZ) : ∃ fuel l, iterDerivatives ord fuel e = .ok l :=
+  ⟨_, terminates_of_finite hps he hz (Gen.derivBounded_all hinj e)⟩
+
+/-- **compile_succeeds_total**: `compile(e)` always returns an automaton … -/
+theorem compile_succeeds_total (hps : PairSound ord) (hinj : Function.Injective ord) {e : RE}
+    (he : e.WF) (hz : e.NZ) : ∃ fuel A, compile ord fuel e = .ok A :=
+  ⟨_, compile_total_of_finite hps he hz (Gen.derivBounded_all hinj e)⟩
+
+/-- … which accepts exactly the language of `e` (C02) -/
+theorem compile_total_correct (hps : PairSound ord) (hinj : Function.Injective ord) {e : RE}
+    (he : e.WF) (hz : e.NZ) :
+    ∃ fuel A, compile ord fuel e = .ok A ∧
+      ∀ w, WFs w → (A.accepts w = some true ↔ w ∈ e.lang) := by
+  obtain ⟨fuel, A, hA⟩ := compile_succeeds_total hps hinj he hz
+  exact ⟨fuel, A, hA, fun w hw => C02.compile_accepts hps he hz hA hw⟩
+
+/-- **is_empty_total**: `is_empty_re(e)` always returns, and its answer is exact (C05) -/
+theorem is_empty_total (hps : PairSound ord) (hinj : Function.Injective ord) {e : RE}
+    (he : e.WF) (hz : e.NZ) :
+    ∃ fuel b, isEmptyRe ord fuel e = .ok b ∧ (b = true ↔ ∀ w, w ∉ e.lang) := by
+  obtain ⟨b, h⟩ := is_empty_total_of_finite hps he hz (Gen.derivBounded_all hinj e)
+  exact ⟨_, b, h, C05.Final.is_empty_iff hps he hz h⟩
+
+/-- **get_string_total**: `get_string(e)` always returns (`None` or a witness) -/
+theorem get_string_total (hps : PairSound ord) (hinj : Function.Injective ord) {e : RE}
+    (he : e.WF) (hz : e.NZ) : ∃ fuel r, getString ord fuel e = .ok r :=
+  ⟨_, get_string_total_of_finite hps he hz (Gen.derivBounded_all hinj e)⟩
+
+/-- **try_compile_total**: there is a fuel with which `try_compile(e, n)` returns for EVERY bound
+    `n`; it answers `Some` exactly when `n ≠ 0` and the closure has at most `n` elements, and the
+    automaton then has exactly that many states -/
+theorem try_compile_total (hps : PairSound ord) (hinj : Function.Injective ord) {e : RE}
+    (he : e.WF) (hz : e.NZ) :
+    ∃ fuel l, iterDerivatives ord fuel e = .ok l ∧ ∀ n, ∃ r, tryCompile ord fuel e n = .ok r ∧
+      (r.isSome = true ↔ n ≠ 0 ∧ l.length ≤ n) ∧ (∀ A, r = some A → A.numStates = l.length) := by
+  obtain ⟨fuel, l, hl⟩ := closure_finite hps hinj he hz
+  refine ⟨fuel, l, hl, fun n => ?_⟩
+  have h1 := C02.try_compile_no_panic hps he hz fuel n
+  have h2 := C19.try_compile_fuel (C19.closureFacts hps) (e := e) ⟨he, hz⟩ (n := n) hl
+  cases hr : tryCompile ord fuel e n with
+  | ok r => exact ⟨r, rfl, C19.Final.try_compile_iff hps he hz hr hl⟩
+  | panic => exact absurd hr h1
+  | outOfFuel => exact absurd hr h2
+
+/-- `is_empty_re` returns for every sufficiently large fuel -/
+theorem is_empty_total_ge (hps : PairSound ord) (hinj : Function.Injective ord) {e : RE}
+    (he : e.WF) (hz : e.NZ) : ∃ N, ∀ fuel, N ≤ fuel → ∃ b, isEmptyRe ord fuel e = .ok b :=
+  ⟨(Gen.univ (Gen.atoms e) (Gen.pot e)).length + 1, fun fuel hf =>
+    isEmptyLoop_terminates (C19.closureFacts hps) (e := e) ⟨he, hz⟩ (Gen.derivBounded_all hinj e)
+      fuel [e] 0 (BInv.init e) (by omega)⟩
+
+mutual
+/-- `start_char(e, c)` returns for every sufficiently large fuel -/
+theorem start_char_total_ge (hps : PairSound ord) (hinj : Function.Injective ord) :
+    ∀ (e : RE) (c : Nat), e.WF → e.NZ → c ≤ MAX_CHAR →
+      ∃ N, ∀ fuel, N ≤ fuel → ∃ b, startChar ord fuel e c = .ok b
+  | .empty, c, _, _, _ => ⟨0, fun fuel _ => ⟨false, by simp [startChar]⟩⟩
+  | .epsilon, c, _, _, _ => ⟨0, fun fuel _ => ⟨false, by simp [startChar]⟩⟩
+  | .range r, c, _, _, _ => ⟨0, fun fuel _ => ⟨r.contains c, by simp [startChar]⟩⟩
+  | .loop x ρ, c, he, hz, hc => by
+    simp only [RE.WF] at he
+    obtain ⟨N, hN⟩ := start_char_total_ge hps hinj x c he.1 ((nz_loop x ρ).1 hz).1 hc
+    exact ⟨N, fun fuel hf => by simpa [startChar] using hN fuel hf⟩
+  | .union l, c, he, hz, hc => by
+    simp only [RE.WF] at he
+    obtain ⟨N, hN⟩ := start_char_any_total_ge hps hinj l c he ((nz_union l).1 hz) hc
+    exact ⟨N, fun fuel hf => by simpa [startChar] using hN fuel hf⟩
+  | .concat a b, c, he, hz, hc => by
+    have hg := (C19.closureFacts hps).deriv_good _ c ⟨he, hz⟩ hc
+    obtain ⟨N, hN⟩ := is_empty_total_ge hps hinj hg.1 hg.2
+    refine ⟨N, fun fuel hf => ?_⟩
+    obtain ⟨b, hb⟩ := hN fuel hf
+    exact ⟨!b, by simp [startChar, hb]⟩
+  | .inter l, c, he, hz, hc => by
+    have hg := (C19.closureFacts hps).deriv_good _ c ⟨he, hz⟩ hc
+    obtain ⟨N, hN⟩ := is_empty_total_ge hps hinj hg.1 hg.2
+    refine ⟨N, fun fuel hf => ?_⟩
+    obtain ⟨b, hb⟩ := hN fuel hf
+    exact ⟨!b, by simp [startChar, hb]⟩
+  | .compl x, c, he, hz, hc => by
+    have hg := (C19.closureFacts hps).deriv_good _ c ⟨he, hz⟩ hc
+    obtain ⟨N, hN⟩ := is_empty_total_ge hps hinj hg.1 hg.2
+    refine ⟨N, fun fuel hf => ?_⟩
+    obtain ⟨b, hb⟩ := hN fuel hf
+    exact ⟨!b, by simp [startChar, hb]⟩
+theorem start_char_any_total_ge (hps : PairSound ord) (hinj : Function.Injective ord) :
+    ∀ (l : List RE) (c : Nat), WFList l → NZList l → c ≤ MAX_CHAR →
+      ∃ N, ∀ fuel, N ≤ fuel → ∃ b, startCharAny ord fuel l c = .ok b
+  | [], c, _, _, _ => ⟨0, fun fuel _ => ⟨false, by simp [startCharAny]⟩⟩
+  | x :: xs, c, he, hz, hc => by
+    simp only [RE.WFList] at he
+    obtain ⟨N1, h1⟩ := start_char_total_ge hps hinj x c he.1 ((nzList_cons x xs).1 hz).1 hc
+    obtain ⟨N2, h2⟩ := start_char_any_total_ge hps hinj xs c he.2 ((nzList_cons x xs).1 hz).2 hc
+    refine ⟨max N1 N2, fun fuel hf => ?_⟩
+    obtain ⟨b1, hb1⟩ := h1 fuel (by omega)
+    obtain ⟨b2, hb2⟩ := h2 fuel (by omega)
+    cases b1 with
+    | true => exact ⟨true, by simp [startCharAny, hb1]⟩
+    | false => exact ⟨b2, by simp [startCharAny, hb1, hb2]⟩
+end
+
+/-- **start_char_total**: `start_char(e, c)` always returns, and its answer is exact (C18) -/
+theorem start_char_total (hps : PairSound ord) (hinj : Function.Injective ord) {e : RE}
+    (he : e.WF) (hz : e.NZ) {c : Nat} (hc : c ≤ MAX_CHAR) :
+    ∃ fuel b, startChar ord fuel e c = .ok b ∧ (b = true ↔ ∃ w, c :: w ∈ e.lang) := by
+  obtain ⟨N, hN⟩ := start_char_total_ge hps hinj e c he hz hc
+  obtain ⟨b, hb⟩ := hN N (Nat.le_refl _)
+  exact ⟨N, b, hb, C18.Final.start_char_iff hps N e c b hb he hz hc⟩
+
+/-! non-vacuity: the terms that were outside the fragment are covered -/
+
+/-- `(a*b)*`, `(a|bb)·a`, `(¬a)·b`, `(ab)*·a·c`, `((ab)*c)*`, `(a|b*)^[2,3]` -/
+private def g1 : RE := .loop (.concat (.loop a ⟨0, none⟩) b) ⟨0, none⟩
+private def g2 : RE := .concat (.union [a, .concat b b]) a
+private def g3 : RE := .concat (.compl a) b
+private def g4 : RE := .concat (.loop (.concat a b) ⟨0, none⟩) (.concat a (.range ⟨99, 99⟩))
+private def g5 : RE :=
+  .loop (.concat (.loop (.concat a b) ⟨0, none⟩) (.range ⟨99, 99⟩)) ⟨0, none⟩
+private def g6 : RE := .loop (.union [a, .loop b ⟨0, none⟩]) ⟨2, some 3⟩
+
+example : ¬ Frag g1 ∧ ¬ Frag g2 ∧ ¬ Frag g3 ∧ ¬ Frag g4 ∧ ¬ Frag g5 ∧ ¬ Frag g6 := by decide
+example : g1.WF ∧ g2.WF ∧ g3.WF ∧ g4.WF ∧ g5.WF ∧ g6.WF := by
+  simp [g1, g2, g3, g4, g5, g6, a, b, RE.WF, RE.WFList, CharSet.WF, MAX_CHAR]
+example : g1.NZ ∧ g2.NZ ∧ g3.NZ ∧ g4.NZ ∧ g5.NZ ∧ g6.NZ := by decide
+example : ∃ fuel l, iterDerivatives ordEnc fuel g5 = .ok l :=
+  closure_finite ordEnc_pairSound ordEnc_injective
+    (by simp [g5, a, b, RE.WF, CharSet.WF, MAX_CHAR]) (by decide)
+/-- the potential and the size for a concrete term: `(ab)*·a·c` -/
+example : Gen.pot g4 = 13 ∧ Gen.sz g4 = 8 := by decide
 
 end Smt.C19.Term
